@@ -18,10 +18,11 @@ from pomdpgen import gen_pomdp, fmt_pomdp, gen_beliefs, L, Qs
 
 def gen(rng, tier):
     n = {"quick": 110, "thorough": 500, "search": 200}[tier]
+    from fractions import Fraction as F
     out = []
     for k in range(n):
         S = rng.choice([2, 2, 3, 3]); A = rng.choice([1, 2, 2, 3]); O = rng.choice([1, 2, 2, 3, 4])
-        m = gen_pomdp(rng, S, A, O)
+        m = gen_pomdp(rng, S, A, O, gammas=(F(1, 2), F(3, 4), F(3, 4), F(1)))
         bud = {1: 4, 2: 3, 3: 3, 4: 2}[O]
         if A == 3: bud = min(bud, 2 if O >= 3 else 3)
         h = rng.randint(1, bud)
@@ -33,7 +34,10 @@ def gen(rng, tier):
             bs = gen_beliefs(rng, S, 4)
             out.append("csbb %s %d %s %d %s" % (fmt_pomdp(m), nw, " ".join(Qs(v) for v in wv), len(bs), " ".join(Qs(b) for b in bs)))
             continue
-        alg = rng.choice(["ip", "ip", "wit", "ls", "pbvi", "pbvi", "perseus", "perseus", "qmdp"])
+        alg = rng.choice(["ip", "ip", "wit", "ls", "pbvi", "pbvi", "pbviw", "pbviw", "perseus", "perseus", "qmdp"])
+        if alg == "pbviw": h = min(h, 2 if O <= 2 else 1)
+        if alg in ("perseus", "qmdp") and m["g"] == 1:   # infinite-horizon bounds need discount < 1
+            m["g"] = F(3, 4)
         minr = min(min(row) for row in m["R"])
         bs = gen_beliefs(rng, S, 4)
         out.append("plan %s %s %d %d %s %d %s %d %s" % (alg, rng.choice(["dense", "dense", "sparse"]), h, rng.choice([3, 6, 10]),
